@@ -97,9 +97,19 @@ pub fn analyze(input_src: &str, output: &TokenStream) -> String {
                             }
                         }
                         let mut declared = BTreeSet::new();
+                        let mut all_names = BTreeSet::new();
+                        let mut twice: Vec<String> = vec![];
                         for p in &im.generics.params {
                             if let syn::GenericParam::Lifetime(l) = p {
                                 declared.insert(l.lifetime.ident.to_string());
+                            }
+                            let nm = match p {
+                                syn::GenericParam::Lifetime(l) => format!("'{}", l.lifetime.ident),
+                                syn::GenericParam::Type(t) => t.ident.to_string(),
+                                syn::GenericParam::Const(c) => c.ident.to_string(),
+                            };
+                            if !all_names.insert(nm.clone()) {
+                                twice.push(nm);
                             }
                         }
                         let mut used = BTreeSet::new();
@@ -110,13 +120,14 @@ pub fn analyze(input_src: &str, output: &TokenStream) -> String {
                         let undeclared: Vec<String> = used.iter().filter(|l| !declared.contains(*l) && *l != "static" && *l != "_").cloned().collect();
                         let (trp, tra) = tr.unwrap_or_default();
                         s.push_str(&format!(
-                            "{{\"kind\":\"impl\",\"trait\":{},\"trait_args\":{},\"self_ty\":{},\"fns\":[{}],\"sigs\":[{}],\"assoc\":[{}],\"other_items\":{},\"undeclared_lifetimes\":[{}],\"n_attrs\":{}}}",
+                            "{{\"kind\":\"impl\",\"trait\":{},\"trait_args\":{},\"self_ty\":{},\"fns\":[{}],\"sigs\":[{}],\"assoc\":[{}],\"other_items\":{},\"undeclared_lifetimes\":[{}],\"declared_twice\":[{}],\"n_attrs\":{}}}",
                             esc_json(&trp), esc_json(&tra), esc_json(&self_ty),
                             fns.iter().map(|x| esc_json(x)).collect::<Vec<_>>().join(","),
                             sigs.iter().map(|x| esc_json(x)).collect::<Vec<_>>().join(","),
                             assoc.iter().map(|x| esc_json(x)).collect::<Vec<_>>().join(","),
                             other,
                             undeclared.iter().map(|x| esc_json(x)).collect::<Vec<_>>().join(","),
+                            twice.iter().map(|x| esc_json(x)).collect::<Vec<_>>().join(","),
                             im.attrs.len()
                         ));
                     }
